@@ -8,6 +8,7 @@ from ..cfg import CFG
 from ..domains.homog import HP, HomogDomain, Lin
 from ..effects import EffectAnalysis
 from ..repo import calls_in, dotted, norm_src, walk_no_nested
+from ..match import Matcher, src as msrc
 from .common import kwarg, need_funcs
 
 P = "acryo/classification/_dask_pca.py::DaskPCA."
@@ -47,17 +48,21 @@ def svd_clause(model, rep, funcs):
         okm = len(mean) == 1 and norm_src(mean[0].value) in ("X.mean(0)", "X.mean(axis=0)")
         rep.ob("DU", f.anchor, "mean_ is the per-feature mean over samples (axis 0) of the fitted data", okm, norm_src(mean[0].value) if mean else "", node=f.node,
                fn=f, clause="fit", stmt="def _fit mean")
-        s = norm_src(f.node)
-        trunc = all(t in s for t in ("self.components_ = self.components_[:n_components]", "self.singular_values_ = self.singular_values_[:n_components]"))
-        rep.ob("DU", f.anchor, "components and singular values are truncated to n_components", trunc, "", node=f.node, fn=f, clause="fit", stmt="def _fit truncate")
-        comp = "components, singular_values = (V, S)" in s or "components, singular_values = V, S" in s
-        rep.ob("DU", f.anchor, "principal axes are the right singular vectors V, singular values are S", comp, "", node=f.node, fn=f, clause="fit",
+        M = Matcher(f)
+        bq: dict = {}
+        okn = M.has("$n = self.n_components", bq)
+        trunc = okn and M.all_of(["self.components_ = self.components_[:$n]", "self.singular_values_ = self.singular_values_[:$n]"], bq)[0]
+        rep.ob("DU", f.anchor, "components and singular values are truncated to n_components", bool(trunc), "", node=f.node, fn=f, clause="fit", stmt="def _fit truncate")
+        # principal axes = right singular vectors V, singular values = S, for both solvers, and they are what is computed into the fitted attributes
+        comp = M.all_of(["$U, $S, $V = da.linalg.svd(X)", "$U, $S, $V = da.linalg.svd_compressed(X, ...)", "$c, $sv = ($V, $S)",
+                         "(($$a, $$b), $$nc, self.components_, self.singular_values_, $$tv) = da.compute($$sh, $$n2, $c, $sv, $$tv2)"])[0]
+        rep.ob("DU", f.anchor, "principal axes are the right singular vectors V, singular values are S", bool(comp), "", node=f.node, fn=f, clause="fit",
                stmt="def _fit components")
     g = funcs.get(P + "transform")
     if g is not None:
-        s = norm_src(g.node)
         rep.instance("DU.svd", g.loc())
-        ok = "X = X - self.mean_" in s and "da.dot(X, self.components_.T)" in s
+        MG = Matcher(g)
+        ok = MG.all_of(["X = X - self.mean_", "da.dot(X, self.components_.T)"])[0] or MG.has("da.dot(X - self.mean_, self.components_.T)")
         rep.ob("DU", g.anchor, "transform subtracts mean_ and projects on components_.T", ok, "", node=g.node, fn=g, clause="transform", stmt="def transform body")
 
 
@@ -66,7 +71,7 @@ def classifier_clause(model, rep, funcs):
     if f is not None:
         s = norm_src(f.node)
         rep.instance("SLOT.pca", f.loc())
-        ok = "_flat_image = self._image_flat(mask=True)" in s and "self._pca.fit(_flat_image)" in s and "self._kmeans.fit_predict(self.get_transform())" in s
+        ok = Matcher(f).all_of(["self._pca.fit(self._image_flat(mask=True))", "self._labels = self._kmeans.fit_predict(self.get_transform())", "return self"])[0]
         rep.ob("SLOT", f.anchor, "run() fits the PCA on the masked, flattened stack and clusters the projections of the same stack", ok, "", node=f.node, fn=f,
                clause="classifier", stmt="def run")
     g = funcs.get(C + "get_transform")
@@ -80,7 +85,7 @@ def classifier_clause(model, rep, funcs):
     if h is not None:
         s = norm_src(h.node)
         rep.instance("SLOT.pca", h.loc())
-        ok = "_input = self._image * self._mask" in s and "_input.reshape(self._n_image, -1)" in s
+        ok = Matcher(h).all_of(["if mask:\n    $i = self._image * self._mask\nelse:\n    $i = self._image", "return $i.reshape(self._n_image, -1)"])[0]
         rep.ob("SLOT", h.anchor, "flattening keeps one row per image (reshape(n_image, -1)) after the optional mask product", ok, "", node=h.node, fn=h,
                clause="classifier", stmt="def _image_flat")
     i = funcs.get(C + "__init__")
@@ -98,16 +103,23 @@ def labels_clause(model, rep, funcs):
         return
     s = norm_src(f.node)
     rep.instance("O.labels", f.loc())
-    stack_ok = "self.iter_mapping_tasks(model.masked_difference, output_shape=shape, var_kwarg=dict(quaternion=self.molecules.quaternion()))" in s and \
-        ".tolist().tostack(shape=shape, dtype=np.float32)" in s
+    M = Matcher(f)
+    b: dict = {}
+    stack_ok = M.all_of(["$model = ZNCCAlignment($$t, $$m, ...)",
+                         "$stack = self.iter_mapping_tasks($model.masked_difference, output_shape=$shape, var_kwarg=dict(quaternion=self.molecules.quaternion()))"
+                         ".tolist().tostack(shape=$shape, dtype=np.float32).rechunk(('auto',) + $shape)"], b)[0] or \
+        M.all_of(["$model = ZNCCAlignment($$t, $$m, ...)",
+                  "$stack = self.iter_mapping_tasks($model.masked_difference, output_shape=$shape, var_kwarg=dict(quaternion=self.molecules.quaternion()))"
+                  ".tolist().tostack(shape=$shape, dtype=np.float32)"], b)[0]
     rep.ob("O", f.anchor, "the difference stack is built from this loader's tasks in molecule order, with each molecule's own quaternion", stack_ok, "", node=f.node,
            fn=f, clause="labels", stmt="classify stack")
     wc = [c for c in calls_in(f) if isinstance(c.func, ast.Attribute) and c.func.attr == "with_columns"]
-    ok = len(wc) == 1 and norm_src(wc[0].func.value) == "mole.features" and norm_src(wc[0].args[0]) == "pl.Series(label_name, clf._labels)" and len(wc[0].args) == 1
+    ok = len(wc) == 1 and stack_ok and M.all_of(["$clf = PcaClassifier($stack, $model.mask, ...)", "$clf.run()", "$mole = self.molecules.copy()",
+                                                 "$mole.features = $mole.features.with_columns(pl.Series(label_name, $clf._labels))"], b)[0]
     rep.ob("O", f.anchor, "exactly one column (the labels, in stack order) is added to the feature table", ok, norm_src(wc[0])[:90] if wc else "", node=f.node, fn=f,
            clause="labels", stmt="classify labels")
-    cp = [n for n in walk_no_nested(f.node) if isinstance(n, ast.Assign) and norm_src(n.targets[0]) == "mole"]
-    okc = len(cp) == 1 and norm_src(cp[0].value) == "self.molecules.copy()" and "new = self.replace(molecules=mole)" in s
+    cp = []
+    okc = bool(ok) and M.all_of(["$new = self.replace(molecules=$mole)", "return ClassificationResult($new, $clf)"], b)[0]
     rep.ob("S18", f.anchor, "labels are attached to a copy of the molecules and the result goes through replace()", okc, norm_src(cp[0].value) if cp else "",
            node=f.node, fn=f, clause="labels", stmt="classify copy")
     ea = EffectAnalysis(model)
@@ -115,7 +127,7 @@ def labels_clause(model, rep, funcs):
     rep.ob("S18", f.anchor, "classify does not modify the loader it is called on", not effs, "; ".join(e.describe() for e in effs[:2]),
            node=(effs[0].node if effs else f.node), fn=f, clause="labels", stmt=(None if effs else "classify pure"))
     clf = [c for c in calls_in(f) if (dotted(c.func) or "") == "PcaClassifier"]
-    okk = len(clf) == 1 and norm_src(clf[0].args[0]) == "stack" and norm_src(clf[0].args[1]) == "model.mask" and "clf.run()" in s
+    okk = len(clf) == 1 and bool(ok)
     rep.ob("SLOT", f.anchor, "the classifier is run on the difference stack with the model's mask", okk, "", node=f.node, fn=f, clause="labels", stmt="classify clf")
     # masked difference: same wedge and transform on both
     g = funcs.get("acryo/alignment/_base.py::TomographyInput.masked_difference")
